@@ -285,8 +285,13 @@ func killMatches(sent, got time.Time) bool {
 	}
 	return got.Equal(time.Unix(sent.Unix(), 0))
 }
+// emptySpec: the documented meaning of "no work hours" (all times zero and the day mask 0 or above 126 = every
+// day), written out here so that the oracle does not depend on WorkHours.Empty itself.
+func emptySpec(w *cfg.WorkHours) bool {
+	return w.StartHour == 0 && w.StartMin == 0 && w.EndHour == 0 && w.EndMin == 0 && (w.Days == 0 || w.Days > 126)
+}
 func workMatches(sent, got *cfg.WorkHours) bool {
-	if sent == nil || sent.Empty() {
+	if sent == nil || emptySpec(sent) {
 		return got == nil
 	}
 	return got != nil && *got == *sent
@@ -832,7 +837,7 @@ func doOrder(srvM, cliM *msess, o order, class string) {
 	synced := srvM.Jitter == cliM.Jitter && srvM.Sleep == cliM.Sleep && srvM.Kill.Equal(cliM.Kill) && reflect.DeepEqual(srvM.Work, cliM.Work)
 	// the order is refused before anything is sent only for work hours that fail Verify
 	if r.err != nil {
-		if o.kind == "SetWork" && o.w != nil && !o.w.Empty() && o.w.Verify() != nil && r.stage == "setter" {
+		if o.kind == "SetWork" && o.w != nil && !emptySpec(o.w) && o.w.Verify() != nil && r.stage == "setter" {
 			stats["setworkhours-verify-refused"]++
 			return
 		}
@@ -976,11 +981,6 @@ type pentry struct {
 // every kind.  The oracle keeps its own record of what the proxy currently IS (updated from the
 // operations that returned no error) and compares every message with it.
 func doProxyHistory(base, r0 *msess, h []popOp, class string) {
-	type result struct {
-		terms []string
-		descs []interface{}
-		fails [][3]interface{}
-	}
 	done := make(chan bool, 1)
 	var (
 		s    *c2.Session
@@ -1199,7 +1199,7 @@ func randHistory(n int) []popOp {
 			if !attached {
 				attached, active = true, true
 			}
-		case x < 6:
+		case x < 7:
 			o.kind = "replace"
 			if attached && !active {
 				continue // Replace on a closed Proxy is not exercised (see notes)
@@ -1380,7 +1380,9 @@ func main() {
 			"all 2^5 zero/non-zero work-hour patterns + Days 126/127/200/255 + out-of-range + random, 0/1/3/255/256 interfaces, 0/255/256 addresses, strings of 0/1/255/256/65535/65536 bytes, "+
 			"proxy none/active/inactive, writer client/server/closing) x six message kinds, written by the real writeDeviceInfo into a Packet and a stream writer, read back by the real "+
 			"readDeviceInfo from a Packet and through whole/1-byte/2-byte/random/key-boundary split readers with and without trailing bytes; truncations and byte changes of valid messages (model only); "+
-			"server setters and task builders -> real client MvTime handler -> real handleInfoResult. distinct = distinct Coq case term; non-trivial = the sender's settings differ from the receiver's previous ones "+
+			"server setters and task builders -> real client MvTime handler -> real handleInfoResult; histories (1..6 operations) of NewProxy / Proxy.Replace with another profile and address / Proxy.Close / re-attach, "+
+			"through the Session/Proxy API and through the MvProxy task of the real client handler, on a real client Session with loopback TCP listeners, followed by each of the six kinds (the carried list is compared with "+
+			"the proxy's current name, bind address and profile bytes). distinct = distinct Coq case term; non-trivial = the sender's settings differ from the receiver's previous ones "+
 			"(a field that is not carried would be seen)")
 	out.ShardSize = 110
 	rng = vh.NewRand(fl.Seed)
